@@ -225,16 +225,6 @@ func c16Gen(r *rand.Rand, n int, tier string) []string {
 			var stream []byte
 			var bounds []int
 			var starts []int // offset of each frame's wire form in the stream
-			for j := 0; j < nf; j++ {
-				f := c16Frame(r, small)
-				frames = append(frames, f)
-				starts = append(starts, len(stream))
-				stream = append(stream, c16Wire(f)...)
-				bounds = append(bounds, len(stream))
-				if r.Intn(10) == 0 { // idle line: extra delimiters between frames
-					stream = append(stream, make([]byte, 1+r.Intn(3))...)
-				}
-			}
 			pre, post := nf, nf
 			bufLen, maxLen := 1024, 1024
 			if small {
@@ -243,6 +233,26 @@ func c16Gen(r *rand.Rand, n int, tier string) []string {
 			}
 			if r.Intn(8) == 0 {
 				maxLen = bufLen - 1 - r.Intn(10)
+			}
+			for j := 0; j < nf; j++ {
+				f := c16Frame(r, small)
+				if small && r.Intn(4) == 0 {
+					// a frame at the limit of the caller's buffer: the longest that fits, one less, or just too long
+					f = make([]byte, maxLen-5+r.Intn(6))
+					for k := range f {
+						f[k] = byte(1 + r.Intn(255))
+						if r.Intn(12) == 0 {
+							f[k] = 0
+						}
+					}
+				}
+				frames = append(frames, f)
+				starts = append(starts, len(stream))
+				stream = append(stream, c16Wire(f)...)
+				bounds = append(bounds, len(stream))
+				if r.Intn(10) == 0 { // idle line: extra delimiters between frames
+					stream = append(stream, make([]byte, 1+r.Intn(3))...)
+				}
 			}
 			// single damage event (~25 %)
 			if r.Intn(4) == 0 && len(stream) > 0 {
